@@ -556,6 +556,9 @@ func (ts *TermStore) Bin(op Op, a, b *Term) *Term {
 		if a == b {
 			return a
 		}
+		if r := ts.orDisjoint(a, b); r != nil {
+			return r
+		}
 	case OpBvXor:
 		if a.IsConst() {
 			a, b = b, a
@@ -589,6 +592,90 @@ func (ts *TermStore) Bin(op Op, a, b *Term) *Term {
 		a, b = b, a
 	}
 	return ts.intern(&Term{Op: op, W: w, Args: []*Term{a, b}})
+}
+
+// bitChunk is a slice of a term in MSB-to-LSB chunk decompositions; t == nil means zero bits.
+type bitChunk struct {
+	t *Term
+	w int
+}
+
+// chunksOf decomposes concat / zero-extend / zero-constant structure (MSB first).
+func (ts *TermStore) chunksOf(t *Term, out []bitChunk) []bitChunk {
+	switch {
+	case t.Op == OpConcat:
+		out = ts.chunksOf(t.Args[0], out)
+		return ts.chunksOf(t.Args[1], out)
+	case t.Op == OpZext:
+		out = append(out, bitChunk{nil, t.Hi})
+		return ts.chunksOf(t.Args[0], out)
+	case t.IsConst() && t.Val == 0:
+		return append(out, bitChunk{nil, t.W})
+	}
+	return append(out, bitChunk{t, t.W})
+}
+
+// orDisjoint rewrites a|b into a concatenation when, chunk by chunk, at most one side is non-zero
+// (the shape produced by big/little-endian byte assembly: zext(b0)<<24 | zext(b1)<<16 | ...).
+func (ts *TermStore) orDisjoint(a, b *Term) *Term {
+	ca := ts.chunksOf(a, nil)
+	cb := ts.chunksOf(b, nil)
+	if len(ca) == 1 && ca[0].t != nil && len(cb) == 1 && cb[0].t != nil {
+		return nil
+	}
+	var res []bitChunk
+	i, j := 0, 0
+	for i < len(ca) && j < len(cb) {
+		x, y := ca[i], cb[j]
+		w := x.w
+		if y.w < w {
+			w = y.w
+		}
+		if x.t != nil && y.t != nil {
+			return nil
+		}
+		var piece *Term
+		src, sw := x.t, x.w
+		if src == nil {
+			src, sw = y.t, y.w
+		}
+		if src != nil {
+			piece = ts.Extract(src, sw-1, sw-w)
+		}
+		res = append(res, bitChunk{piece, w})
+		// consume
+		if x.w == w {
+			i++
+		} else {
+			var rest *Term
+			if x.t != nil {
+				rest = ts.Extract(x.t, x.w-w-1, 0)
+			}
+			ca[i] = bitChunk{rest, x.w - w}
+		}
+		if y.w == w {
+			j++
+		} else {
+			var rest *Term
+			if y.t != nil {
+				rest = ts.Extract(y.t, y.w-w-1, 0)
+			}
+			cb[j] = bitChunk{rest, y.w - w}
+		}
+	}
+	var out *Term
+	for _, c := range res {
+		p := c.t
+		if p == nil {
+			p = ts.BV(c.w, 0)
+		}
+		if out == nil {
+			out = p
+		} else {
+			out = ts.Concat(out, p)
+		}
+	}
+	return out
 }
 
 func (ts *TermStore) BvNot(a *Term) *Term {
@@ -650,7 +737,7 @@ func (ts *TermStore) Extract(a *Term, hi, lo int) *Term {
 	case OpBvNot:
 		return ts.BvNot(ts.Extract(a.Args[0], hi, lo))
 	case OpIte:
-		if a.Args[1].IsConst() || a.Args[2].IsConst() {
+		if a.Args[1].IsConst() && a.Args[2].IsConst() {
 			return ts.Ite(a.Args[0], ts.Extract(a.Args[1], hi, lo), ts.Extract(a.Args[2], hi, lo))
 		}
 	case OpAdd, OpSub, OpMul:
